@@ -61,6 +61,8 @@ func (s *Streamer) binlogPosition() Position {
 //Stream 注册一个处理事务信息函数到Stream中
 func (s *Streamer) Stream(ctx context.Context, sendTransaction SendTransactionFunc) error {
 	s.ctx = ctx
+	ctx, cancel := context.WithCancel(ctx)
+	defer cancel()
 	conn, err := newSlaveConnection(func() (conn dumpConn, e error) {
 		return mysql.NewDumpConn(s.dsn, ctx)
 	})
